@@ -27,7 +27,13 @@ Definition GEN : program :=
    stub "extern::visit_path_segment" ["checker"; "el"]
      (ERecord "CheckGenerics" [("used", ECall "push" [EField (EVar "checker") "used"; ECon "visited the segment" [EVar "el"]])]
         (Some (EVar "checker")));
-   stub "extern::get_path" ["g"] (EField (EVar "g") "path")].
+   stub "extern::get_path" ["g"] (EField (EVar "g") "path");
+   (* `MsgVariant::new(sig, &mut checker, msg_attr, attrs)`: the variant built from exactly these, and the checker after the
+      signature was traversed (recorded as one more entry of `used`) *)
+   stub "extern::MsgVariant::new" ["sig"; "checker"; "msg_attr"; "attrs_to_forward"]
+     (ECon "()" [ECon "MsgVariant" [EVar "sig"; EVar "msg_attr"; EVar "attrs_to_forward"];
+                 ERecord "CheckGenerics" [("used", ECall "push" [EField (EVar "checker") "used"; ECon "visited the signature" [EVar "sig"]])]
+                   (Some (EVar "checker"))])].
 
 Lemma evals_compute_calls P K d e en r :
   (forall g h, eval (call P d (K + h)) (K + g) e en = Some r) -> evals P d e en r.
